@@ -198,10 +198,42 @@ def conversion_scope(ctx, py: PyRepo):
            f'without allocating ({uses_lookup}) and convert the values in that scope ({same_scope})', py.where(SEM, fn))
 
 
+def fresh_substitution(ctx, py: PyRepo):
+    """the map convert_substitutions returns is kept by the proof thunk of its step until the whole trace has been consumed
+    (dynamic_inst reads it when the proof is interpreted); it must be an object allocated by that very call, otherwise the next
+    step's conversion overwrites the plugs of this one"""
+    sem = py.cls('LanguageSemantics', SEM)
+    fn = sem.methods.get('convert_substitutions')
+    ctx.require(fn is not None, 'anchor vanished: LanguageSemantics.convert_substitutions')
+    rets = [n for n in ast.walk(fn) if isinstance(n, ast.Return) and n.value is not None]
+    params = {a.arg for a in fn.args.args + fn.args.kwonlyargs}
+    ok, why = bool(rets), 'no return'
+    for r in rets:
+        v = r.value
+        if isinstance(v, (ast.Dict, ast.DictComp)) or (isinstance(v, ast.Call) and ast.unparse(v.func) in ('dict', 'frozendict')):
+            continue
+        if isinstance(v, ast.Name):
+            if v.id in params:
+                ok, why = False, f'it returns its parameter `{v.id}` (with a default that is one object shared by every call)'
+                continue
+            allocs = [a for a in ast.walk(fn) if isinstance(a, (ast.Assign, ast.AnnAssign))
+                      and ast.unparse(a.targets[0] if isinstance(a, ast.Assign) else a.target) == v.id and a.value is not None]
+            fresh = allocs and all(isinstance(a.value, (ast.Dict, ast.DictComp)) or (isinstance(a.value, ast.Call)
+                                   and ast.unparse(a.value.func) in ('dict', 'frozendict')) for a in allocs)
+            if not fresh:
+                ok, why = False, f'`{v.id}` is not a map created inside the call'
+            continue
+        ok, why = False, f'it returns `{ast.unparse(v)[:60]}`'
+    ctx.ob('scope-per-axiom', 'convert_substitutions/fresh-map', ok,
+           f'convert_substitutions must return a map allocated by that call: {why}; the proof of each step keeps its map until the proof is '
+           f'interpreted, so a shared object makes earlier steps use the last step\'s plugs', py.where(SEM, fn))
+
+
 def run(ctx):
     py = PyRepo.get()
     rewrite_event(ctx, py)
     conversion_scope(ctx, py)
+    fresh_substitution(ctx, py)
     ctx.floor('rewrite-typestate', 9)
     ctx.floor('scope-allocator', 4)
     ctx.floor('scope-per-axiom', 3)
